@@ -39,7 +39,7 @@ class VEnc(object):
         if key == 'nan':
             return 1
         v = float(key)
-        if v == int(v) and abs(v) < 2 ** 24:
+        if v not in (float('inf'), float('-inf')) and v == int(v) and abs(v) < 2 ** 24:
             z = int(v)
             return 2 * z if z >= 0 else 2 * (-z) + 1
         if key not in self.fclass:
@@ -338,6 +338,8 @@ def feature_counts(cases):
                     inc('source S,T,P')
                 if any(t.lower().lstrip('+-') == 'nan' for t in s['tokens']):
                     inc('source with NaN')
+                if any(t.lower().lstrip('+-') in ('inf', 'infinity') for t in s['tokens']):
+                    inc('source with an infinity')
             for p in g['prims']:
                 inc('prim ' + p['tag'])
                 offs = [i[0] for i in p['inputs']]
@@ -369,6 +371,9 @@ def feature_counts(cases):
                     inc('instance_node')
                 elif it['t'] in ('geometry', 'controller') and any(m['binds'] for m in it['materials']):
                     inc('bind_vertex_input')
+            gi = [(it['url'], tuple(sorted(m['symbol'] for m in it['materials']))) for it in n['items'] if it['t'] == 'geometry' and it['materials']]
+            if len(set(gi)) < len(gi):
+                inc('same geometry twice in one node with the same symbols')
         for n in d['nodes']:
             walk(n)
             if expect.inst_refs(n):
